@@ -30,10 +30,36 @@ struct Setup {
     msgs: [u8; 2],     // how many messages each of the two senders sends
     cancel: bool,      // the schedule may drop one blocked send future (the sender task ends there)
     drop_receiver: bool, // the schedule may drop the receiver (the mailbox closes)
+    gated: bool,       // the handler of sender 0's first message only completes once sender 0's second message was accepted
+}
+
+// a gate a handler waits on: opened by a sender task, wakes whoever waits
+struct Gate {
+    open: AtomicBool,
+    waiter: Mutex<Option<Waker>>,
+}
+impl Gate {
+    fn open(&self) {
+        self.open.store(true, Ordering::SeqCst);
+        if let Some(w) = self.waiter.lock().unwrap().take() {
+            w.wake();
+        }
+    }
+}
+struct GateFut(Arc<Gate>);
+impl Future for GateFut {
+    type Output = ();
+    fn poll(self: Pin<&mut Self>, cx: &mut TaskContext<'_>) -> Poll<()> {
+        if self.0.open.load(Ordering::SeqCst) {
+            return Poll::Ready(());
+        }
+        *self.0.waiter.lock().unwrap() = Some(cx.waker().clone());
+        Poll::Pending
+    }
 }
 fn setup_json(s: &Setup, tape: &[(usize, usize)], names: &[String]) -> String {
-    format!("{{\"capacity\":{},\"messages_per_sender\":{:?},\"may_drop_a_blocked_send\":{},\"may_drop_the_receiver\":{},\"schedule\":{:?}}}",
-        s.capacity, s.msgs, s.cancel, s.drop_receiver, names)
+    format!("{{\"capacity\":{},\"messages_per_sender\":{:?},\"may_drop_a_blocked_send\":{},\"may_drop_the_receiver\":{},\"handler_of_first_message_waits_for_the_senders_second_message_to_be_accepted\":{},\"schedule\":{:?}}}",
+        s.capacity, s.msgs, s.cancel, s.drop_receiver, s.gated, names)
 }
 type Fail = (&'static str, &'static str, String);
 
@@ -48,19 +74,32 @@ fn run_one(s: &Setup, tape: &mut Vec<(usize, usize)>, names: &mut Vec<String>) -
     let rx: Receiver<M> = Receiver::new(s.capacity);
     let observer = rx.observer();
     let mut tasks: Vec<Option<Task>> = Vec::new();
+    let gate = Arc::new(Gate { open: AtomicBool::new(false), waiter: Mutex::new(None) });
     for i in 0..2u8 {
         let sender: Sender<M> = rx.sender();
         let n = s.msgs[i as usize];
         let results = results.clone();
+        let gate = gate.clone();
+        let gated = s.gated;
         tasks.push(Some(Box::pin(async move {
             for k in 0..n {
+                let hgate = gate.clone();
                 let r = sender
                     .send(move |m: &mut M, _cx: &mut Context<M>, rb: RecycleBox<()>| -> RecycleBox<dyn Future<Output = ()> + Send + '_> {
                         m.log.lock().unwrap().push((i, k));
-                        coerce_box!(RecycleBox::recycle(rb, async {}))
+                        if gated && i == 0 && k == 0 {
+                            // a handler that is itself waiting for the sender it has to make room for (as in a cycle of
+                            // models with saturated mailboxes): the slot is free as soon as the message is taken
+                            coerce_box!(RecycleBox::recycle(rb, async move { GateFut(hgate).await }))
+                        } else {
+                            coerce_box!(RecycleBox::recycle(rb, async {}))
+                        }
                     })
                     .await;
                 results.lock().unwrap().push((i, k, r.is_ok()));
+                if i == 0 && k == 1 {
+                    gate.open();
+                }
             }
             drop(sender);
         })));
@@ -215,8 +254,16 @@ fn main() {
     for capacity in if thorough { vec![1usize, 2, 3, 4] } else { vec![1usize, 2, 3] } {
         for msgs in &msg_sets {
             for (cancel, drop_receiver) in [(false, false), (true, false), (false, true)] {
-                setups.push(Setup { capacity, msgs: *msgs, cancel, drop_receiver });
+                setups.push(Setup { capacity, msgs: *msgs, cancel, drop_receiver, gated: false });
             }
+
+        }
+    }
+    // a handler that waits for its own sender's next message to be accepted: only that sender sends (another sender could
+    // legitimately take the freed slot and the system would deadlock by itself), and nothing is dropped
+    for capacity in [1usize, 2] {
+        for msgs in [[2u8, 0u8], [3, 0]] {
+            setups.push(Setup { capacity, msgs, cancel: false, drop_receiver: false, gated: true });
         }
     }
     let budget: u64 = if thorough { 3_000_000 } else { 400_000 };
